@@ -865,11 +865,11 @@ non-trivial = at least one .du32 value or one diagnostic observed; distinct = di
 		cx.report.sample(format!("{} -> {}", p.encode(), canon_obs(&o)));
 	}
 
-	let en = if cx.thorough() {enumerate_two_files(3, 2, 2)} else {enumerate_two_files(2, 1, 2)};
+	let en = if cx.thorough() {enumerate_two_files(3, 2, 2)} else {enumerate_two_files(3, 1, 2)};
 	cx.report.hit_n("two-file projects (exhaustive)", en.len() as u64);
 	run_batch(cx, &en, &mut serial);
 
-	let n = if cx.thorough() {60_000} else {4_000};
+	let n = if cx.thorough() {150_000} else {15_000};
 	let mut projects = Vec::with_capacity(n);
 	for _ in 0..n
 	{
